@@ -1,7 +1,7 @@
 from __future__ import annotations
 
 import copy
-from typing import Any, Dict, Optional, Set, Type, Union
+from typing import Any, Dict, Optional, Set, Tuple, Type, Union
 from uuid import UUID, uuid4
 from mloda.core.abstract_plugins.components.data_types import DataType
 
@@ -166,25 +166,30 @@ class Feature:
     def is_different_data_type(self, other: Feature) -> bool:
         return self.name == other.name and self.data_type != other.data_type
 
-    def has_similarity_properties(self) -> int:
-        """Hash for grouping features by compute framework, options, and data type.
+    def similarity_key(self) -> Tuple[Any, ...]:
+        """Key for grouping features by compute framework, options, and data type.
 
-        When data_type is None, it's excluded from the hash so None-typed features
+        When data_type is None, it's excluded from the key so None-typed features
         can be grouped with any typed features (handled by grouping logic).
         """
+        if self.data_type is not None:
+            return (*self.base_similarity_key(), self.data_type)
+        return self.base_similarity_key()
+
+    def base_similarity_key(self) -> Tuple[Any, ...]:
+        """Base key excluding data_type - used for lenient grouping of None-typed features."""
         compute_frameworks_hashable = (
             frozenset(self.compute_frameworks) if self.compute_frameworks is not None else None
         )
-        if self.data_type is not None:
-            return hash((self.options, compute_frameworks_hashable, self.data_type))
-        return hash((self.options, compute_frameworks_hashable))
+        return (self.options, compute_frameworks_hashable)
+
+    def has_similarity_properties(self) -> int:
+        """Hash of similarity_key()."""
+        return hash(self.similarity_key())
 
     def base_similarity_properties(self) -> int:
-        """Base hash excluding data_type - used for lenient grouping of None-typed features."""
-        compute_frameworks_hashable = (
-            frozenset(self.compute_frameworks) if self.compute_frameworks is not None else None
-        )
-        return hash((self.options, compute_frameworks_hashable))
+        """Hash of base_similarity_key()."""
+        return hash(self.base_similarity_key())
 
     def _set_domain(self, domain: Optional[str], domain_options: Optional[str]) -> Union[None, Domain]:
         if domain:
